@@ -1,6 +1,7 @@
 import DVP.Lemmas.LoopReset
 import DVP.Lemmas.LoopIdem
 import DVP.Lemmas.LoopEvReset
+import DVP.Lemmas.RunSplit
 /-!
 # C13 — results do not depend on call history; reset restores the initial state
 
@@ -8,7 +9,10 @@ Loop model of C03.  PARTIAL: the theorems are about the time-grid state (`ts`, `
 `t0`, `tf`); the states `y`, the integrator's memory, the event list, the dense output and the
 counters are compared on the implementation (`harness/p_c13.py`: any op sequence, then `reset()`,
 then the re-run must coincide bit for bit with a freshly constructed system), as is the
-tolerance-level equality of differently split runs.  Determinism ("bit-for-bit for identical call
+tolerance-level equality of differently split adaptive runs.  For the fixed-step explicit and splitting methods
+the whole-run model `DV.Run` carries the states, and a run split at one of its own grid points is proved to record
+exactly the samples of the single call (`split_at_grid_point_changes_no_sample`; exact arithmetic — what the
+implementation may differ by is rounding, and `harness/runsim.py` compares split plans with the model).  Determinism ("bit-for-bit for identical call
 sequences") is immediate for the model — it is a function — and is checked on the implementation.
 -/
 namespace DVP.C13
@@ -108,6 +112,36 @@ theorem reset_restores_after_events (cfg : DV.LoopEv.CfgEv ℚ) (t0 tf dt : ℚ)
   unfold Obs DV.Loop.reset
   simp only [hs.t0, hs.tf, hs.dt0, hs.first, c1, c2, c3, c4, c5, c6]
   simp
+
+/-- **However a fixed-step span is split at its own grid points, the samples are the same.**  Whole-run model
+`DV.Run` (time-grid machine + recorded states; fixed-step explicit Runge–Kutta and splitting methods, `inc` the
+increment of one step, any right-hand side).  The system's step `dt` points at `T`; the intermediate target lies
+`j ≥ 1` whole steps ahead of the current time and at least one whole step before `T` (closer than that the second
+call starts by halving what is left - see the second example below - and the runs agree to tolerance only).  Then
+`integrate(t₁); integrate(T)` records exactly the times AND states of `integrate(T)` and leaves the same step,
+whatever was recorded before, for every number of steps. -/
+theorem split_at_grid_point_changes_no_sample {V : Type} (cfg : Cfg ℚ) (htolpos : 0 < cfg.tolEps)
+    (add : V → V → V) (inc : ℚ → V → ℚ → V) (s : DV.Run.SysY ℚ V) (T : ℚ) (j F1 m : Nat) (hj : 1 ≤ j) (hF1 : j ≤ F1)
+    (hok : DVP.Run.StepsOK add inc s.sys.ts s.ys) (hcr : s.sys.crashed = false) (hdir : 0 < s.sys.dt * (T - s.sys.tcur))
+    (hside : 0 < s.sys.dt * (T - (s.sys.tcur + j * s.sys.dt))) (hfar : |s.sys.dt| ≤ |T - (s.sys.tcur + j * s.sys.dt)|)
+    (htol : cfg.tolEps ≤ |s.sys.dt|) :
+    let A := DV.Run.integrate cfg add inc s T (j + m)
+    let B := DV.Run.integrate cfg add inc (DV.Run.integrate cfg add inc s (s.sys.tcur + j * s.sys.dt) F1) T m
+    B.sys.ts = A.sys.ts ∧ B.ys = A.ys ∧ B.sys.dt = A.sys.dt :=
+  DVP.RunSplit.split_samples cfg htolpos add inc s T j F1 m hj hF1 hok hcr hdir hside hfar htol
+
+/-- non-vacuity: Euler on `y' = y`, `dt = 1/4`, `integrate(1/2); integrate(9/8)` against `integrate(9/8)` -/
+example : (DV.Run.calls (α := ℚ) (V := ℚ) { eps := 1/2^50, tolEps := 1/2^47, half := 1/2 } (· + ·)
+      (fun _ y h => y * h) 10 (DV.Run.construct 0 2 (1/4) 1) [1/2, 9/8]).ys =
+    (DV.Run.calls (α := ℚ) (V := ℚ) { eps := 1/2^50, tolEps := 1/2^47, half := 1/2 } (· + ·)
+      (fun _ y h => y * h) 10 (DV.Run.construct 0 2 (1/4) 1) [9/8]).ys := by decide +kernel
+
+/-- the hypothesis "at least one whole step before `T`" cannot be dropped: split one eighth before the target,
+the second call takes two steps of one sixteenth and the states differ -/
+example : (DV.Run.calls (α := ℚ) (V := ℚ) { eps := 1/2^50, tolEps := 1/2^47, half := 1/2 } (· + ·)
+      (fun _ y h => y * h) 10 (DV.Run.construct 0 2 (1/4) 1) [1, 9/8]).ys ≠
+    (DV.Run.calls (α := ℚ) (V := ℚ) { eps := 1/2^50, tolEps := 1/2^47, half := 1/2 } (· + ·)
+      (fun _ y h => y * h) 10 (DV.Run.construct 0 2 (1/4) 1) [9/8]).ys := by decide +kernel
 
 /-- non-vacuity: a call with a terminal event, a plain continuation, a call with an event function that raises, then reset -/
 example :
